@@ -615,7 +615,7 @@ def prog_stream(ctx, elk, model):
     small = [s for s in shapes if len(s[0]) == 2]
     big = [s for s in shapes if len(s[0]) > 2]
     rng.shuffle(big)
-    big = big[:ctx.n(250, 4000)]
+    big = big[:ctx.n(250, 1500)]
     chosen = small + big
     n_invalid = 0
     for i, (shape, tc) in enumerate(chosen):
@@ -625,7 +625,7 @@ def prog_stream(ctx, elk, model):
             n_invalid += 1
             continue
         cases.append(("s%05d" % i, p, "shape:" + "/".join(shape) + (":topcatch" if tc else ""), g.pairs, False))
-    for i in range(ctx.n(250, 3000)):
+    for i in range(ctx.n(250, 1000)):
         g = Gen(rng)
         depth = 2 + rng.below(3) if i % 4 else 3 + rng.below(3)
         p = g.random_program(depth)
@@ -768,12 +768,12 @@ def table_stream(ctx, model):
     progs = []
     shapes = all_shapes()
     rng.shuffle(shapes)
-    for i, (shape, tc) in enumerate(shapes[:ctx.n(100, 3000)]):
+    for i, (shape, tc) in enumerate(shapes[:ctx.n(100, 1000)]):
         g = Gen(rng)
         p = g.shape_program(shape, tc)
         if p is not None:
             progs.append(("s%05d" % i, Printer(False).program(p)))
-    for i in range(ctx.n(60, 2000)):
+    for i in range(ctx.n(60, 700)):
         g = Gen(rng)
         progs.append(("r%05d" % i, Printer(False).program(g.random_program(2 + rng.below(3)))))
     d = os.path.join(ctx.workdir, "tables")
